@@ -832,8 +832,27 @@ func fpLit(w int, f float64) string {
 	return fmt.Sprintf("(fp #b%01b #b%011b #b%052b)", b>>63, (b>>52)&0x7ff, b&0xfffffffffffff)
 }
 
+// smtName: the SMT symbol of a variable; the sort is part of the symbol so that the
+// same harness name used with different types on different paths never clashes.
 func smtName(t *Term) string {
-	return "|" + t.Name + "|"
+	return "|" + t.Name + sortTag(t.S) + "|"
+}
+
+func sortTag(s Sort) string {
+	switch s.K {
+	case KBool:
+		return "~b"
+	case KBV:
+		return "~v" + strconv.Itoa(s.W)
+	}
+	return "~f" + strconv.Itoa(s.W)
+}
+
+func stripSortTag(n string) string {
+	if i := strings.LastIndex(n, "~"); i >= 0 {
+		return n[:i]
+	}
+	return n
 }
 
 var opNames = map[Op]string{
